@@ -12,6 +12,7 @@ import (
 type Loader struct {
 	targetsDir string
 	cache      map[string]*RawConfig
+	resolving  map[string]bool // targets whose inheritance is currently being resolved
 }
 
 // NewLoader creates a new target configuration loader
@@ -95,6 +96,16 @@ func (l *Loader) resolveInheritance(raw *RawConfig) (*Config, error) {
 		// No inheritance, return as-is
 		return &raw.Config, nil
 	}
+
+	// Detect inheritance cycles instead of recursing forever
+	if l.resolving[raw.Name] {
+		return nil, fmt.Errorf("inheritance cycle detected at target config %s", raw.Name)
+	}
+	if l.resolving == nil {
+		l.resolving = make(map[string]bool)
+	}
+	l.resolving[raw.Name] = true
+	defer delete(l.resolving, raw.Name)
 
 	// Start with base config
 	result := &Config{Name: raw.Name}
